@@ -47,13 +47,16 @@ class BoboGenEventIDUnique(BoboGenEventID):
         with self._lock:
             now: int = int(time())
 
-            if now == self._last:
-                self._count += 1
-            else:
+            # Only ever move forwards: if the clock steps back to an earlier
+            # second, keep counting within the latest second seen so far,
+            # otherwise an ID issued earlier would be issued again.
+            if now > self._last:
                 self._count = 0
                 self._last = now
+            else:
+                self._count += 1
 
             if self._urn is not None:
-                return "{}_{}_{}".format(self._urn, now, self._count)
+                return "{}_{}_{}".format(self._urn, self._last, self._count)
             else:
-                return "{}_{}".format(now, self._count)
+                return "{}_{}".format(self._last, self._count)
